@@ -631,6 +631,7 @@ func runC01(c *Ctx) {
 	importRules(c, runC19, map[string]string{"C19.R4": "C01.R7"}, nil)
 	importRules(c, runC11, map[string]string{"C11.R2": "C01.R7"}, nil)
 	importRules(c, runC12, map[string]string{"C12.R7": "C01.R7"}, nil)
+	importRules(c, runC04, map[string]string{"C04.R5": "C01.R9"}, map[string]string{"C01.R9": "the domain test Match re-validates index hits with is the documented one, on the host name as the index was probed with it (no extra case folding or looser boundary: shared with C04.R5)"})
 
 	// ---------- R6 ----------
 	a.rule = "C01.R6"
